@@ -120,11 +120,13 @@ func VerifC10_HandlerForged() {
 	addr := NewAddr(src)
 	n := []int{0, 1, 19, 20, 21}[verifChoice(0, 4)]
 	tok := verifSymString(n)
-	t := env.clock.t
+	// the three tokens that are live now: issued in the current interval and in the two before it
+	now := env.clock.t
 	for i := 0; i < 3; i++ {
-		verifAssume(tok != env.v.s.tokenServer.createToken(addr, t))
-		t = t.Add(-5 * time.Minute)
+		env.clock.t = now.Add(-time.Duration(i) * 5 * time.Minute)
+		verifAssume(tok != env.v.s.createToken(addr))
 	}
+	env.clock.t = now
 	method := verifWriteMethod()
 	env.write(method, tok, src)
 	env.noEffect("a token this node did not issue")
